@@ -69,6 +69,19 @@ func init() {
 		return L(out...)
 	})
 	regOp("cc_read", func(a []Sx) Sx {
+		src0, spoil0 := ownedSrc(a[0].B) // read, vandalise the result, read again
+		if c0, err0 := certurl.ReadCertChain(src0); err0 == nil {
+			for _, ac := range c0 {
+				if ac != nil {
+					scribble(ac.OCSPResponse)
+					scribble(ac.SCTList)
+					if ac.Cert != nil {
+						scribble(ac.Cert.Raw)
+					}
+				}
+			}
+		}
+		spoil0()
 		src, spoil := ownedSrc(a[0].B)
 		chain, err := certurl.ReadCertChain(src)
 		spoil()
